@@ -51,14 +51,20 @@ def run(tier, seed, replay=None):
     budget = 20 if tier == 'quick' else 600
     t0 = time.time()
     total = 0; races = 0; runs = []
-    confs = [(m, g) for g in ((8, 2, 32) if tier == 'quick' else (8, 2, 4, 16, 32)) for m in ('mixed', 'shared', 'sharedinput', 'own')]
-    seen_modes = set()
-    for mode, gor in confs:
-        # every mode runs at least once whatever the time budget
-        if time.time() - t0 > budget and mode in seen_modes:
+    # every mode gets the same share of the time budget and cycles through the goroutine counts within it (at least one
+    # run per mode whatever the budget)
+    modes = ('sharedinput', 'shared', 'mixed', 'own')
+    gcounts = (8, 32, 2) if tier == 'quick' else (8, 32, 2, 16, 4)
+    confs = []
+    for mi, m in enumerate(modes):
+        for rnd in range(4 if tier == 'quick' else 12):
+            confs.append((m, gcounts[rnd % len(gcounts)], mi, rnd))
+    mode_t0 = {}
+    for mode, gor, mi, rnd in confs:
+        mode_t0.setdefault(mode, time.time())
+        if rnd > 0 and time.time() - mode_t0[mode] > budget / len(modes):
             continue
-        seen_modes.add(mode)
-        spec = {'programs': progs, 'goroutines': gor, 'iterations': 6 if tier == 'quick' else 40, 'mode': mode}
+        spec = {'programs': progs, 'goroutines': gor, 'iterations': 3 if tier == 'quick' else 25, 'mode': mode}
         p = subprocess.run([race], input=json.dumps(spec), capture_output=True, text=True, env=dict(os.environ, GORACE='halt_on_error=0'), timeout=900)
         nr = p.stderr.count('WARNING: DATA RACE')
         try:
